@@ -45,7 +45,7 @@ class Ctx(object):
 
 class State(object):
   __slots__ = ('env', 'heap', 'pyheap', 'pc', 'next_oid', 'tags', 'ghost', 'locks', 'depth', 'exc_stack',
-               'classof', 'clock')
+               'classof', 'clock', 'ax')
 
   def __init__(self):
     self.env = {}
@@ -60,6 +60,7 @@ class State(object):
     self.exc_stack = ()    # currently handled exceptions (for bare raise / sys.exc_info)
     self.classof = z3.Function('classof', z3.IntSort(), z3.IntSort())
     self.clock = 0
+    self.ax = set()      # ids of pc entries that are axioms (facts about fresh / uninterpreted symbols, shapes)
 
   def fork(self):
     s = State.__new__(State)
@@ -75,12 +76,28 @@ class State(object):
     s.exc_stack = self.exc_stack
     s.classof = self.classof
     s.clock = self.clock
+    s.ax = set(self.ax)
     return s
 
   def assume(self, cond):
     if z3.is_true(cond):
       return
     self.pc.append(cond)
+
+  def axiom(self, cond):
+    """A fact that holds regardless of the path taken (IEEE facts about an uninterpreted application, shape
+    invariants of a value just read, ranges of fresh symbols).  Kept out of merged guards."""
+    if z3.is_true(cond):
+      return
+    self.pc.append(cond)
+    self.ax.add(cond.get_id())
+
+  def split_delta(self, base):
+    """pc[base:] -> (guards, axioms)"""
+    g, a = [], []
+    for c in self.pc[base:]:
+      (a if c.get_id() in self.ax else g).append(c)
+    return g, a
 
   def harr(self, key, sort):
     """Heap array for field key; created unconstrained (arbitrary pre-state) on first use."""
